@@ -91,7 +91,7 @@ Section Lemmas.
       + destruct (process_single_spec s h true s1 E1 Hst Hc) as (A & B & C & D).
         destruct (IH s1 ok s' H A (D eq_refl)) as (A' & B' & C' & D'). repeat split; try congruence. exact D'.
       + injection H as <- <-. destruct (process_single_spec s h false s1 E1 Hst Hc) as (A & B & C & D).
-        repeat split; auto. discriminate.
+        repeat split; auto; discriminate.
   Qed.
 
   Lemma validate_spec s hs ok s' : validate s hs = (ok, s') -> inv s -> s_state s = PRESYNC ->
@@ -153,7 +153,7 @@ Section Lemmas.
       destruct (IH s1 s' H A) as (A' & B' & C' & D' & E' & G').
       repeat split; try congruence.
       + rewrite C', C, <- app_assoc. reflexivity.
-      + intros fp Hl. apply E'. rewrite C, E. now apply linked_snoc.
+      + intros fp Hl. apply E'. rewrite C, E. apply (linked_snoc fp (s_buf s) (s_rlast_hash s) h Hl D).
       + lia.
   Qed.
 
@@ -173,9 +173,9 @@ Section Lemmas.
 
   Lemma pop_all : forall buf fp last, linked fp buf last -> pop_loop (p_buffer p) true buf fp = (buf, [], last).
   Proof.
-    induction buf as [|front rest IH]; intros fp last Hl; simpl in *.
-    - now subst.
-    - destruct Hl as [Hp Hl]. rewrite orb_true_r. rewrite (release_linked front fp Hp).
+    induction buf as [|front rest IH]; intros fp last Hl.
+    - simpl in *. now subst.
+    - cbn [pop_loop]. destruct Hl as [Hp Hl]. rewrite orb_true_r. rewrite (release_linked front fp Hp).
       rewrite (IH (h_id front) last Hl). reflexivity.
   Qed.
 
